@@ -15,6 +15,45 @@ import numpy as np
 import terms
 
 
+def lift(v):
+    """Floats (which `terms.enc` calls opaque) as the term `$float(hex=...)`, everywhere inside a value: exact, sign of zero and NaN payload included."""
+    if isinstance(v, (float, np.floating)):
+        return terms.Term("$float", (("hex", float(v).hex()),))
+    if isinstance(v, terms.Term):
+        return terms.Term(v.f, lift(v.args))
+    if callable(v) and hasattr(v, "c04_term") and not isinstance(v, type):
+        return lift(v.c04_term)      # a function value made by props/c04.py (`_c04_make_fn`): read as the value it stands for
+    if v is np.ma.masked:
+        return v
+    if isinstance(v, np.ma.MaskedArray):
+        if v.dtype != object and v.dtype.kind != "f":
+            return v
+        mask = np.ma.getmaskarray(v)
+        data = np.empty(v.shape, dtype=object)
+        for i in np.ndindex(*v.shape):
+            data[i] = None if mask[i] else lift(v.data[i])
+        return np.ma.masked_array(data, mask=mask.copy())
+    if isinstance(v, np.ndarray):
+        if v.dtype != object and v.dtype.kind != "f":
+            return v
+        out = np.empty(v.shape, dtype=object)
+        for i in np.ndindex(*v.shape):
+            out[i] = lift(v[i])
+        return out
+    if isinstance(v, tuple):
+        return tuple(lift(x) for x in v)
+    if isinstance(v, list):
+        return [lift(x) for x in v]
+    if isinstance(v, dict):
+        return {k: lift(x) for k, x in v.items()}
+    return v
+
+
+def enc(v):
+    """`terms.enc` with floats visible (see `lift`)."""
+    return terms.enc(lift(v))
+
+
 def tname(v):
     if isinstance(v, np.ma.MaskedArray):
         return "MaskedArray"
@@ -54,8 +93,8 @@ def enc_run_info(ri):
         "mapspecs": list(ri.mapspecs_as_strings),
         "storage": ri.storage if isinstance(ri.storage, str) else enc_keyed(ri.storage, lambda s: s),
         "internal_shapes": None if ri.internal_shapes is None else sorted([k, ishape_val(v)] for k, v in ri.internal_shapes.items()),
-        "inputs": sorted([k, tname(v), terms.enc(v)] for k, v in ri.inputs.items()),
-        "defaults": sorted([k, tname(v), terms.enc(v)] for k, v in ri.defaults.items()),
+        "inputs": sorted([k, tname(v), enc(v)] for k, v in ri.inputs.items()),
+        "defaults": sorted([k, tname(v), enc(v)] for k, v in ri.defaults.items()),
         "all_output_names": sorted(ri.all_output_names),
         "run_folder": str(ri.run_folder),
     }
@@ -65,10 +104,10 @@ def enc_dataset(ds):
     out = {"vars": {}, "coords": {}}
     for name in ds.data_vars:
         da = ds[name]
-        out["vars"][str(name)] = {"dims": list(da.dims), "data": terms.enc(da.values.item() if da.ndim == 0 else da.values)}
+        out["vars"][str(name)] = {"dims": list(da.dims), "data": enc(da.values.item() if da.ndim == 0 else da.values)}
     for name in ds.coords:
         c = ds.coords[name]
-        out["coords"][str(name)] = {"dims": list(c.dims), "data": terms.enc(c.values.item() if c.ndim == 0 else list(c.values) if c.ndim == 1 else c.values)}
+        out["coords"][str(name)] = {"dims": list(c.dims), "data": enc(c.values.item() if c.ndim == 0 else list(c.values) if c.ndim == 1 else c.values)}
     return out
 
 
@@ -88,16 +127,16 @@ def observe(folder, names, xarray=True, subset=None):
 
     obs = {"outputs": {}}
     for n in names:
-        obs["outputs"][n] = guarded(lambda n=n: (lambda v: {"type": tname(v), "v": terms.enc(v)})(load_outputs(n, run_folder=folder)))
+        obs["outputs"][n] = guarded(lambda n=n: (lambda v: {"type": tname(v), "v": enc(v)})(load_outputs(n, run_folder=folder)))
     if len(names) >= 2:
         def many():
             vs = load_outputs(*names, run_folder=folder)
-            return {"type": tname(vs), "v": [terms.enc(v) for v in vs]}
+            return {"type": tname(vs), "v": [enc(v) for v in vs]}
         obs["outputs_many"] = guarded(many)
     if subset:
         def some():
             vs = load_outputs(*subset, run_folder=folder)
-            return {"type": tname(vs), "v": [terms.enc(v) for v in vs] if len(subset) > 1 else [terms.enc(vs)]}
+            return {"type": tname(vs), "v": [enc(v) for v in vs] if len(subset) > 1 else [enc(vs)]}
         obs["outputs_subset"] = guarded(some)
     obs["run_info"] = guarded(lambda: enc_run_info(RunInfo.load(folder)))
     if xarray:
